@@ -198,7 +198,9 @@ def leg_faultpoints(base_seed, index, opts):
     t0 = time.time()
     res = new_result()
     prof = opts['profile']
-    scn = S.draw(base_seed, index, prof, salt=opts.get('salt', 'faultpoints'))
+    slices = int(opts.get('slices', 1))      # expensive worlds: `slices` units share one world, each takes every slices-th fault plan
+    world_index, my_slice = index // slices, index % slices
+    scn = S.draw(base_seed, world_index, prof, salt=opts.get('salt', 'faultpoints'))
     scn['faults'] = []
     cap = opts.get('ref_budget_cap', 60)
     eff = S.effective(scn)
@@ -230,7 +232,9 @@ def leg_faultpoints(base_seed, index, opts):
     for k in sorted(set(kk for kk in (1, npt, npt + 1, max(1, nf_ref // 2), nf_ref) if 1 <= kk <= nf_ref)):
         for kind in ('nan', '+inf', '1e200'):
             plans.append([{'at': k, 'kind': kind, 'comp': 'all', 'scope': 'from'}])
-    for plan in plans:
+    for pi, plan in enumerate(plans):
+        if pi % slices != my_slice:
+            continue
         s2 = S.clone(scn)
         s2['faults'] = plan
         s2['origin'] = dict(scn['origin'], fault=plan[0])
